@@ -23,8 +23,8 @@ BASE = '''printf :: (f: str, n: i64) extern;
 mark :: (n: i64) { printf("\\n@%ld\\n", n); }
 pr :: (v: i64) { printf("%ld ", v); }
 In :: struct { v: i32, w: [2]i32 };
-Mid :: struct { i: In, a: [2]In, pm: ^mut In, pi: ^In, o: ?In };
-gg :: In.{ v = 71, w = i32.[72, 73] };
+Mid :: struct { i: In, a: [2]In, pm: ^mut In, pi: ^In, o: ?In, ap: [1]^In, am: [1]^mut In };
+gg :: comptime { In.{ v = 71, w = i32.[72, 73] } };
 show_in :: (x: In) { pr(i64.(x.v)); pr(i64.(x.w[0])); pr(i64.(x.w[1])); }
 show_mid :: (x: Mid) {
     show_in(x.i); show_in(x.a[0]); show_in(x.a[1]); show_in(x.pm^); show_in(x.pi^);
@@ -34,14 +34,15 @@ show_mid :: (x: Mid) {
 
 SETUP = '''t1 := In.{ v = 1, w = i32.[2, 3] };
 t2 := In.{ v = 4, w = i32.[5, 6] };
-lm := Mid.{ i = In.{ v = 7, w = i32.[8, 9] }, a = In.[In.{ v = 10, w = i32.[11, 12] }, In.{ v = 13, w = i32.[14, 15] }], pm = ^mut t1, pi = ^t2, o = In.{ v = 16, w = i32.[17, 18] } };'''
+lm := Mid.{ i = In.{ v = 7, w = i32.[8, 9] }, a = In.[In.{ v = 10, w = i32.[11, 12] }, In.{ v = 13, w = i32.[14, 15] }], pm = ^mut t1, pi = ^t2, o = In.{ v = 16, w = i32.[17, 18] }, ap = .[^t2], am = .[^mut t1] };'''
 
 
 def fresh_mem():
     t1 = {"v": 1, "w": [2, 3]}
     t2 = {"v": 4, "w": [5, 6]}
     lm = {"i": {"v": 7, "w": [8, 9]}, "a": [{"v": 10, "w": [11, 12]}, {"v": 13, "w": [14, 15]}],
-          "pm": ("ptr", t1, True), "pi": ("ptr", t2, False), "o": ["some", {"v": 16, "w": [17, 18]}]}
+          "pm": ("ptr", t1, True), "pi": ("ptr", t2, False), "o": ["some", {"v": 16, "w": [17, 18]}],
+          "ap": [("ptr", t2, False)], "am": [("ptr", t1, True)]}
     return t1, t2, lm
 
 
@@ -57,19 +58,22 @@ def leaves_mid(m):
 
 def copy_mid(m):
     """value copy: pointers keep pointing at the same objects"""
-    return {"i": copy.deepcopy(m["i"]), "a": copy.deepcopy(m["a"]), "pm": m["pm"], "pi": m["pi"], "o": copy.deepcopy(m["o"])}
+    return {"i": copy.deepcopy(m["i"]), "a": copy.deepcopy(m["a"]), "pm": m["pm"], "pi": m["pi"], "o": copy.deepcopy(m["o"]),
+            "ap": list(m["ap"]), "am": list(m["am"])}
 
 
 # types: "Mid", "In", "AIn" ([2]In), "AI" ([2]i32), "i32", "PMIn" (^mut In), "PIn" (^In), "OIn" (?In), "PMMid", "PMid"
 STEPS = {
-    "Mid": [(".i", "In"), (".a", "AIn"), (".pm", "PMIn"), (".pi", "PIn"), (".o", "OIn")],
+    "Mid": [(".i", "In"), (".a", "AIn"), (".pm", "PMIn"), (".pi", "PIn"), (".o", "OIn"), (".ap", "APIn"), (".am", "APMIn")],
+    "APIn": [("[0]", "PIn")],
+    "APMIn": [("[0]", "PMIn")],
     "In": [(".v", "i32"), (".w", "AI")],
     "AIn": [("[0]", "In"), ("[1]", "In")],
     "AI": [("[1]", "i32")],
     "PMIn": [("^", "In"), (".v", "i32"), (".w", "AI")],
     "PIn": [("^", "In"), (".v", "i32"), (".w", "AI")],
-    "PMMid": [("^", "Mid"), (".i", "In"), (".a", "AIn"), (".pm", "PMIn"), (".pi", "PIn")],
-    "PMid": [("^", "Mid"), (".i", "In"), (".a", "AIn"), (".pm", "PMIn"), (".pi", "PIn")],
+    "PMMid": [("^", "Mid"), (".i", "In"), (".a", "AIn"), (".pm", "PMIn"), (".pi", "PIn"), (".ap", "APIn"), (".am", "APMIn")],
+    "PMid": [("^", "Mid"), (".i", "In"), (".a", "AIn"), (".pm", "PMIn"), (".pi", "PIn"), (".ap", "APIn"), (".am", "APMIn")],
     "OIn": [("unwrap", "In")],
     "i32": [],
 }
@@ -213,11 +217,11 @@ def make_case(root, steps, final_ty, op, paren_at, idx):
         if ok:
             cont[key] = cont[key] + 1
     elif op == "ref":
-        stmts.append(f"rq := ^{place}; pr(i64.(rq{'^' if final_ty == 'i32' else '.v' if final_ty == 'In' else '[1]' if final_ty == 'AI' else '[1].v'}));")
+        stmts.append(f"rq := ^({place}); pr(i64.(rq{'^' if final_ty == 'i32' else '.v' if final_ty == 'In' else '[1]' if final_ty == 'AI' else '[1].v'}));")
         ok = True
     else:  # refmut: take ^mut and write through it
         sel = {"i32": "^", "In": ".v", "AI": "[1]", "AIn": "[1].v"}[final_ty]
-        stmts.append(f"mq := ^mut {place}; mq{sel} = 55;")
+        stmts.append(f"mq := ^mut ({place}); mq{sel} = 55;")
         ok = writable
         if ok:
             cur = cont[key]
